@@ -256,6 +256,12 @@ def check_laws(mods, x, y, nt, levels, ri, shifts):
     got = float(diagnostics(mods, [v + d for v in y], [v + e for v in x], nt, levels).required_impact)
     if not rclose(got, ri, 1e-9):
       out.append(('IgnoresLevelShifts', 'y + %g, x + %g: required_impact=%.15g demanded %.15g' % (d, e, got, ri)))
+    # a level that dwarfs the spread (about a million standard deviations): rounding grows with the level, so the
+    # tolerance is 1e-6 here; a spread computed from raw moments loses all its digits at this level
+    big = 1.0e6 * max(abs(d), abs(e), 1e-300) / 20.0
+    got = float(diagnostics(mods, [v + big for v in y], [v - big for v in x], nt, levels).required_impact)
+    if not rclose(got, ri, 1e-6):
+      out.append(('IgnoresLevelShifts', 'y + %g, x - %g: required_impact=%.15g demanded %.15g' % (big, big, got, ri)))
   except Exception as e:  # pylint: disable=broad-except
     out.append(('RequiredImpactIsTotal', '%s: %s' % (type(e).__name__, e)))
   return out
